@@ -913,8 +913,12 @@ class C03(C02):
     validator_names = LAX_NAMES + ["ge", "le", "length", "unique_items"]
     rule = ("(a) every lax validator on (value, bound) pairs at and around the bounds, applied twice and followed by its strict form; "
             "(b) declared types with 1-2 Lax(...) constraints (plus strict ones) applied to values of the source type and re-parsed; "
-            "(c) operator audit.  non-trivial = the lax validator changed its input, or the value is within 1 of a bound, or the "
-            "declaration has >= 2 constraints; distinct by (constraints, value)")
+            "(c) operator audit; (d) pairs/triples of Lax constraints on numbers with bounds that disturb each other; "
+            "(e) whole-type re-parse on the real code: logical combinations (| ^ & ~), nested generics, Schema/DataClass with defaults of "
+            "every container kind, factories, aliases, no_output, nested classes, 20 option sets, result re-parsed as instance and as plain "
+            "data and compared incl. container classes; (f) copy_value on nested data vs the T1 model.  non-trivial = the lax validator "
+            "changed its input, or the value is within 1 of a bound, or the declaration has >= 2 constraints, or a re-parse case whose first "
+            "parse succeeded, or a copy case with a nested container; distinct by (declaration/type, options, value)")
 
     reparse_share = 0.3
     copy_share = 0.04
